@@ -785,7 +785,18 @@ func checkC08(c *Ctx) {
 				if !isStreamType(ir.StripIface(a).Type()) && !isIfaceType(a.Type()) {
 					continue
 				}
+				// what the list decoder (and what it calls) does with the stream it was handed is
+				// not what it was handed: only values outside the callee's own cone count (the deep
+				// slice of the thorough tier otherwise walks into the decoder's body readers)
+				inCallee, _ := c.Reachable([]*ssa.Function{callee})
 				for v := range c.sliceOf(a) {
+					if vi, isI := v.(ssa.Instruction); isI && vi.Parent() != nil && vi.Parent() != db && inCallee[topFn(vi.Parent())] {
+						// ... unless the bounded view is itself handed to a decoder of the library
+						// (the entries of a list read through a view of the list's declared size)
+						if vv, isV := v.(ssa.Value); !isV || !c.handedToLibrary(vv, 0) {
+							continue
+						}
+					}
 					if lc, isC := v.(*ssa.Call); isC && (ir.CallID(lc) == "io.LimitReader" || ir.CallID(lc) == "io.NewSectionReader") {
 						bad = c.IPos(lc)
 					}
@@ -1911,4 +1922,61 @@ func renameScratchLeaves(fn *ssa.Function, ls []leaf) {
 			break
 		}
 	}
+}
+
+// handedToLibrary: the value (through interface conversions, cells and phis) is an
+// argument of a call of a library function.
+func (c *Ctx) handedToLibrary(v ssa.Value, depth int) bool {
+	if depth > 4 || v == nil || v.Referrers() == nil {
+		return false
+	}
+	for _, u := range *v.Referrers() {
+		switch x := u.(type) {
+		case ssa.CallInstruction:
+			if callee := ir.Callee(x); callee != nil && c.P.InLib(callee) {
+				for _, a := range ir.CallArgs(x) {
+					if a == v {
+						return true
+					}
+				}
+			}
+		case *ssa.MakeInterface:
+			if c.handedToLibrary(x, depth+1) {
+				return true
+			}
+		case *ssa.ChangeInterface:
+			if c.handedToLibrary(x, depth+1) {
+				return true
+			}
+		case *ssa.Phi:
+			if c.handedToLibrary(x, depth+1) {
+				return true
+			}
+		case *ssa.Store:
+			if x.Val == v {
+				if a, ok := x.Addr.(*ssa.Alloc); ok && a.Referrers() != nil {
+					for _, r := range *a.Referrers() {
+						if ld, isLd := r.(*ssa.UnOp); isLd && ld.Op == token.MUL && c.handedToLibrary(ld, depth+1) {
+							return true
+						}
+						if mk, isMk := r.(*ssa.MakeClosure); isMk {
+							// captured by a function literal: look at its loads of the free variable
+							if cf, okF := mk.Fn.(*ssa.Function); okF {
+								for k, bnd := range mk.Bindings {
+									if bnd == ssa.Value(a) && k < len(cf.FreeVars) && cf.FreeVars[k].Referrers() != nil {
+										for _, fr := range *cf.FreeVars[k].Referrers() {
+											if ld, isLd := fr.(*ssa.UnOp); isLd && ld.Op == token.MUL && c.handedToLibrary(ld, depth+1) {
+												return true
+											}
+										}
+									}
+								}
+							}
+						}
+					}
+				}
+			}
+		}
+	}
+	return false
 }
